@@ -225,7 +225,7 @@ func (e *Exec) callSSAFrame(caller *frame, fn *ssa.Function, args []Value, env [
 		df := e.depthFault
 		e.depthFault = 0
 		e.depth--
-		e.fault("stack overflow: call depth %d exceeded in %s (unbounded recursion)", df, fn)
+		e.fault("resource: stack overflow: call depth %d exceeded in %s (unbounded recursion)", df, fn)
 	}
 	if e.depth > e.maxDepth {
 		e.abort("limit", "call depth bound %d exceeded in %s", e.maxDepth, fn)
